@@ -196,6 +196,10 @@ func init() {
 		s.PendingTimeoutJob = i64(30)
 		s.PodActions = []string{"run", "succeed", "fail", "sched", "latefinish"}
 		add(s)
+		s = jobBase("none-att1-pendingtimeout-latefinish")
+		s.PendingTimeoutJob = i64(30)
+		s.PodActions = []string{"run", "succeed", "fail", "sched", "latefinish"}
+		add(s)
 		s = jobBase("none-att1-kill-latefinish")
 		s.PodActions = []string{"run", "succeed", "latefinish"}
 		s.Kill, s.MaxKill = []string{"0"}, 1
@@ -249,6 +253,11 @@ func init() {
 				add(l)
 			}
 		}
+		lf := jobBase("none-att2-pendingtimeout-latefinish")
+		lf.MaxAttempts, lf.MaxFail = 2, 1
+		lf.PendingTimeoutJob = i64(30)
+		lf.PodActions = []string{"run", "succeed", "fail", "sched", "latefinish"}
+		add(lf)
 		s := jobBase("none-notstarted-kill-delete")
 		s.NotStarted = true
 		s.Kill, s.MaxKill = []string{"0", "30"}, 1
